@@ -46,7 +46,7 @@ def _case(draw, tier):
         "wrap": [draw(st.integers(0, 2)) if draw(st.booleans()) else 0 for _ in prog["sites"]],
         "join": draw(st.booleans()),
         "tabs": draw(st.sampled_from([False, False, False, True])),
-        "crlf": draw(st.sampled_from([False, False, False, True])),
+        "crlf": draw(st.sampled_from([False] * 8 + [True] * 3 + ["mixed"])),
         "clean": draw(st.sampled_from([False, False, False, True])),
         "decorator": draw(st.booleans()),
         "strings": draw(st.booleans()),
@@ -57,7 +57,10 @@ def _case(draw, tier):
 def signature(case):
     from .c05 import signature as c05_signature
 
-    return c05_signature(case)
+    sigs = set(c05_signature(case))
+    if case["deco"].get("crlf") == "mixed":
+        sigs.add("mixed-line-endings")
+    return sigs
 
 
 def decorate(case):
@@ -122,7 +125,11 @@ def decorate(case):
     elif deco["tabs"]:
         text = "\n".join(_tabify(l) for l in text.split("\n"))
     # the order of sites may have changed by joining lines? joining keeps left-to-right order
-    if deco["crlf"]:
+    if deco["crlf"] == "mixed":
+        # both kinds of line endings in one file (a dos header with unix lines added later)
+        ls = text.split("\n")
+        text = "".join(l + ("\r\n" if i < 4 else "\n") for i, l in enumerate(ls[:-1])) + ls[-1]
+    elif deco["crlf"]:
         text = text.replace("\n", "\r\n")
     return text, order
 
